@@ -166,6 +166,9 @@ pub fn generate(target: Target, r: &mut Rng, tier: Tier, st: &mut Stats) -> Trac
     let big = tier == Tier::Thorough && r.chance(1, 25);
     let (mc, mr) = if big { (80, 24) } else { (20, 10) };
     let (cols, rows) = gen_size(r, mc, mr);
+    // cursor addressing on gigantic screens (parameters beyond 9999 / beyond 16 bits) - only for the
+    // cursor target: its sessions are short and need no long text
+    let (cols, rows) = if target == Target::Cursor { maybe_gigantic(r, (cols, rows)) } else { (cols, rows) };
     let cfg = Config { cols, rows, limit: None };
     let mut p = Profile::base();
     match target {
@@ -223,6 +226,9 @@ pub fn execute(target: Target, t: &Trace, st: &mut Stats, ctx: &Ctx) -> Verdict 
     let id = target.id();
     let res = catch_avt(|| -> Verdict {
         let mut vt = build(t.config.cols, t.config.rows, None);
+        // the same events delivered with their original call structure (multi-character feed_str
+        // calls, feed() loops): what holds per character must hold for any grouping into calls
+        let mut vt2 = build(t.config.cols, t.config.rows, None);
         let mut parser = Parser::new();
         let mut m = Model::new(t.config.cols, t.config.rows, true);
         let mut refp = crate::model::parser::RefParser::new();
@@ -250,17 +256,26 @@ pub fn execute(target: Target, t: &Trace, st: &mut Stats, ctx: &Ctx) -> Verdict 
                     let o = observe(&vt);
                     m.adopt(&o);
                     after_resize = true;
+                    vt2.resize(*cols, *rows);
                     continue;
                 }
                 Event::FeedStr { s, .. } | Event::Feed { s } | Event::Inert { s, .. } => s,
                 _ => continue,
             };
             let mut buf = [0u8; 4];
+            let by_feed = matches!(e, Event::Feed { .. });
+            if by_feed {
+                st.bump("events_delivered_by_feed_loop");
+            }
             for ch in s.chars() {
                 let f = parser.feed(ch);
                 let rf = refp.feed(ch);
-                // one character per call; feed_str so that per-call garbage collection runs
-                vt.feed_str(ch.encode_utf8(&mut buf));
+                // one character per call: feed() where the schedule says feed loop, else feed_str
+                if by_feed {
+                    vt.feed(ch);
+                } else {
+                    vt.feed_str(ch.encode_utf8(&mut buf));
+                }
                 if target == Target::Print {
                     // "each printable character is written": a character the state machine of the
                     // statement prints (ground state, 0x20-0x7F or >= U+00A0) must reach the terminal
@@ -284,6 +299,11 @@ pub fn execute(target: Target, t: &Trace, st: &mut Stats, ctx: &Ctx) -> Verdict 
                     let pre_grid = if target == Target::Scroll && cls == Some(Target::Cursor) { Some(m.view.clone()) } else { None };
                     m.step(&f);
                     let o = observe(&vt);
+                    if (o.cols, o.rows) != (m.cols, m.rows) {
+                        m.resize_hidden(o.cols, o.rows);
+                        m.adopt(&o);
+                        continue;
+                    }
                     if let Some(pv) = pre_grid {
                         st.bump("off_margin_moves_checked_for_scrolling");
                         let moved = o.view.len() != pv.len() || o.view.iter().zip(pv.iter()).any(|(a, b)| a.cells != b.cells) || o.above.len() != pre_above_len;
@@ -315,6 +335,12 @@ pub fn execute(target: Target, t: &Trace, st: &mut Stats, ctx: &Ctx) -> Verdict 
                 let before = m.clone();
                 let predictable = m.step(&f);
                 let o = observe(&vt);
+                if (o.cols, o.rows) != (m.cols, m.rows) {
+                    // the terminal changed its size on its own (in-stream resize): follow it
+                    m.resize_hidden(o.cols, o.rows);
+                    m.adopt(&o);
+                    continue;
+                }
                 if !predictable {
                     m.adopt(&o);
                     continue;
@@ -434,6 +460,25 @@ pub fn execute(target: Target, t: &Trace, st: &mut Stats, ctx: &Ctx) -> Verdict 
                 }
                 m.adopt(&o);
             }
+            // the event with its original call structure on the twin
+            match e {
+                Event::Feed { s } => {
+                    for ch in s.chars() {
+                        vt2.feed(ch);
+                    }
+                }
+                Event::FeedStr { s, .. } | Event::Inert { s, .. } => {
+                    vt2.feed_str(s);
+                }
+                _ => {}
+            }
+            if let Some(d) = crate::obs::same_screen(&vt, &vt2) {
+                return Verdict::Violation { rule: format!("{}/call-structure", id), detail: format!("event #{}: the event delivered as one call and character by character give different screens: {}", ei, d) };
+            }
+            if !by_feed && vt.lines() != vt2.lines() {
+                return Verdict::Violation { rule: format!("{}/call-structure", id), detail: format!("event #{}: lines() differ between one call ({} lines) and character-by-character delivery ({} lines)", ei, vt2.lines().len(), vt.lines().len()) };
+            }
+            st.bump("call_structure_twin_compared");
         }
         st.add("target_steps", target_steps);
         if let Some(k) = known {
